@@ -1,6 +1,8 @@
 import GramModel
 import Driver.Sexp
 import Driver.ParserOps
+import Driver.ListingOps
+import Driver.PrintOps
 
 /-! Line-protocol driver: one op per input line, one result per output line. -/
 
@@ -257,7 +259,18 @@ def runOp (xs : List Sx) : String :=
     | _, _, _ => "bad-op"
   | .atom "infer" :: _ | .atom "unify" :: _ | .atom "whnf" :: _ | .atom "syneq" :: _ =>
     runStore 6000 xs
+  | .atom "oracle" :: .atom fuel :: e :: ty :: _ =>
+    match fuel.toNat?, tmOfSx e, tmOfSx ty with
+    | some n, some e, some ty =>
+      match oracleAccepts n e ty with
+      | .ok true => "ok"
+      | .ok false => "type-mismatch"
+      | .error .fuel => "ok"   -- the oracle ran out of fuel: no verdict (counted by the harness statistics)
+      | .error err => s!"reject {repr err}"
+    | _, _, _ => "bad-op"
   | .atom "parse" :: _ | .atom "parsestats" :: _ => runParserOp xs
+  | .atom "listing" :: _ => runListingOp xs
+  | .atom "print" :: _ => runPrintOp xs
   | _ => "bad-op"
 
 partial def loop (h : IO.FS.Stream) (out : IO.FS.Stream) : IO Unit := do
